@@ -357,25 +357,6 @@ func CheckMain(args []string) int {
 		exhaustive = exhaustive && r.Exhaustive
 		viols = append(viols, r.Violations...)
 	}
-	if def.BFS != nil {
-		var per []any
-		for _, bd := range def.BFS(tier) {
-			bs := RunBFS(bd, deadline)
-			engineErrs = append(engineErrs, bs.EngineErrs...)
-			states, transitions, traces = states+bs.States, transitions+bs.Steps, traces+bs.Transitions
-			exhaustive = exhaustive && bs.Exhaustive
-			viols = append(viols, bs.Violations...)
-			for _, sm := range bs.Samples {
-				if len(samples) < 10 {
-					samples = append(samples, sm)
-				}
-			}
-			per = append(per, map[string]any{"search": bd.Name, "alphabet_size": len(bd.Alphabet), "max_burst": bd.Burst, "transitions_per_state": len(bd.moves()), "depth_bound": bd.Depth, "depth_completed": bs.Depth,
-				"fixed_point": bs.FixedPoint, "distinct_states": bs.States, "operations_applied": bs.Transitions, "new_states_per_depth": bs.PerDepth, "cut_by_deadline": !bs.Exhaustive,
-				"burst_phase": map[string]any{"burst_len": bd.TailBurst, "from_states_up_to_depth": bd.TailDepth, "pairs_from_states_up_to_depth": bd.PairDepth, "bursts_applied": bs.TailTransitions, "new_states_seen": bs.TailNewStates}})
-		}
-		cov["searches"] = per
-	}
 	if def.Jobs != nil {
 		jobs := def.Jobs(tier)
 		for i := range jobs {
@@ -450,6 +431,25 @@ func CheckMain(args []string) int {
 		cov["max_preemptions_in_an_execution"] = maxPre
 		cov["distinct_outcomes"] = len(outcomes)
 		cov["scenarios_with_single_outcome"] = single
+	}
+	if def.BFS != nil {
+		var per []any
+		for _, bd := range def.BFS(tier) {
+			bs := RunBFS(bd, deadline)
+			engineErrs = append(engineErrs, bs.EngineErrs...)
+			states, transitions, traces = states+bs.States, transitions+bs.Steps, traces+bs.Transitions
+			exhaustive = exhaustive && bs.Exhaustive
+			viols = append(viols, bs.Violations...)
+			for _, sm := range bs.Samples {
+				if len(samples) < 10 {
+					samples = append(samples, sm)
+				}
+			}
+			per = append(per, map[string]any{"search": bd.Name, "alphabet_size": len(bd.Alphabet), "max_burst": bd.Burst, "transitions_per_state": len(bd.moves()), "depth_bound": bd.Depth, "depth_completed": bs.Depth,
+				"fixed_point": bs.FixedPoint, "distinct_states": bs.States, "operations_applied": bs.Transitions, "new_states_per_depth": bs.PerDepth, "cut_by_deadline": !bs.Exhaustive,
+				"burst_phase": map[string]any{"burst_len": bd.TailBurst, "from_states_up_to_depth": bd.TailDepth, "pairs_from_states_up_to_depth": bd.PairDepth, "bursts_applied": bs.TailTransitions, "new_states_seen": bs.TailNewStates}})
+		}
+		cov["searches"] = per
 	}
 	if def.Post != nil {
 		m, errs := def.Post(tier)
